@@ -614,7 +614,7 @@ def run_C12(ctx):
                     # closure (`*_with_backend`): `*_block_inplace`, `*_par_blocks_inplace`, `*_tail_blocks_inplace` against
                     # `*_par_blocks(InOut)` / `*_tail_blocks(InOutBuf)` into a dirty buffer
                     if rng.random() < 0.35:
-                        a = f"backend {rng.choice([0, 1, 2, 4, 5])} {hx(x)}"
+                        a = f"backend {rng.choice([0, 1, 2, 4, 5, 6])} {hx(x)}"
                     if rng.random() < 0.25:
                         b = f"backend 3 {hx(x)}"
                 else:
